@@ -49,11 +49,27 @@ def mk(h, m, pe):
     return Prefixed(number=Decimal(m), prefix=Prefix.from_exp(pe))
 
 
+def pre_op(a, pre):
+    """An operation that fails inside the library before the case proper (results must not depend on history)."""
+    try:
+        if pre == "eq_none":
+            a == None  # noqa: E711
+        elif pre == "lt_badstr":
+            a < "abc"
+        elif pre == "add_badstr":
+            a + "x"
+        elif pre == "scale_inf":
+            (a * 0).scale()
+    except Exception:
+        pass
+
+
 def run_pair(args):
-    tid, (ma, pa, mb, pb) = args
+    tid, (ma, pa, mb, pb, pre) = args
     from ..hd import h
     a, b = mk(h, ma, pa), mk(h, mb, pb)
-    ev = {"tid": tid, "kind": "pair", "a": P(a), "b": P(b)}
+    pre_op(a, pre)
+    ev = {"tid": tid, "kind": "pair", "a": P(a), "b": P(b), "pre": pre}
     ev["add"] = res(lambda: a + b)
     ev["sub"] = res(lambda: a - b)
     ev["mul"] = res(lambda: a * b)
@@ -72,16 +88,7 @@ def run_pair(args):
     return ev
 
 
-def run_unary(args):
-    tid, (ma, pa) = args
-    from ..hd import h
-    from hdl21.prefix import Prefix
-    a = mk(h, ma, pa)
-    ev = {"tid": tid, "kind": "unary", "a": P(a), "targets": PREFIX_EXPS}
-    ev["neg"] = res(lambda: -a)
-    ev["abs"] = res(lambda: abs(a))
-    ev["auto"] = res(lambda: a.scale())
-    ev["scales"] = [res(lambda q=q: a.scale(Prefix.from_exp(q))) for q in PREFIX_EXPS]
+def conv_fields(a, ev):
     try:
         i = int(a)
         if not isinstance(i, int):
@@ -98,6 +105,28 @@ def run_unary(args):
     except Exception as ex:
         z = {"neg": False, "d": [], "e": 0}
         ev["float"] = {"raised": True, "f": z, "lo": z, "hi": z, "exc": type(ex).__name__}
+
+
+def run_conv(args):
+    tid, (ma, pa) = args
+    from ..hd import h
+    a = mk(h, ma, pa)
+    ev = {"tid": tid, "kind": "conv", "a": P(a)}
+    conv_fields(a, ev)
+    return ev
+
+
+def run_unary(args):
+    tid, (ma, pa) = args
+    from ..hd import h
+    from hdl21.prefix import Prefix
+    a = mk(h, ma, pa)
+    ev = {"tid": tid, "kind": "unary", "a": P(a), "targets": PREFIX_EXPS}
+    ev["neg"] = res(lambda: -a)
+    ev["abs"] = res(lambda: abs(a))
+    ev["auto"] = res(lambda: a.scale())
+    ev["scales"] = [res(lambda q=q: a.scale(Prefix.from_exp(q))) for q in PREFIX_EXPS]
+    conv_fields(a, ev)
     return ev
 
 
@@ -121,21 +150,34 @@ def gen(tier, seed):
     for pa in PREFIX_EXPS:
         for pb in PREFIX_EXPS:
             for ma, mb in rnd.sample(mp, per_pair):
-                pairs.append((ma, pa, mb, pb))
+                pairs.append((ma, pa, mb, pb, rnd.choice(PRES)))
             # values straddling the prefix boundary: equal values written with different prefixes
             if pa - pb in range(-6, 7):
                 k = pa - pb
-                pairs.append(("1E%+d" % (-k) if k > 0 else "1", pa, "1" if k > 0 else "1E%+d" % k, pb))
-                pairs.append(("1", pa, "1E%+d" % k, pb))
+                pairs.append(("1E%+d" % (-k) if k > 0 else "1", pa, "1" if k > 0 else "1E%+d" % k, pb, "none"))
+                pairs.append(("1", pa, "1E%+d" % k, pb, "none"))
             nr = 1 if tier == "quick" else 12
             for _ in range(nr):
-                pairs.append((rand_mantissa(rnd), pa, rand_mantissa(rnd), pb))
+                pairs.append((rand_mantissa(rnd), pa, rand_mantissa(rnd), pb, rnd.choice(PRES)))
     for pa in PREFIX_EXPS:
         for ma in MANTISSAS:
             unary.append((ma, pa))
         for _ in range(6 if tier == "quick" else 60):
             unary.append((rand_mantissa(rnd), pa))
-    return pairs, unary
+    # int()/float() around the precision of a double: 14-18 significant digits, values next to 2**53, every prefix
+    conv = []
+    for _ in range(4000 if tier == "quick" else 40000):
+        nd = rnd.choice([14, 15, 16, 16, 16, 17, 17, 18, 20])
+        digits = str(rnd.randint(1, 9)) + "".join(rnd.choice("0123456789") for _ in range(nd - 1))
+        if rnd.random() < 0.15:
+            digits = str(2 ** 53 + rnd.randint(-3, 3))
+        point = rnd.randint(1, len(digits))
+        ms = digits[:point] + ("." + digits[point:] if point < len(digits) else "")
+        conv.append((("-" if rnd.random() < 0.3 else "") + ms, rnd.choice(PREFIX_EXPS)))
+    return pairs, unary, conv
+
+
+PRES = ["none"] * 12 + ["eq_none", "lt_badstr", "add_badstr", "scale_inf"]
 
 
 def feats(ev, clause):
@@ -143,6 +185,8 @@ def feats(ev, clause):
     if ev["kind"] == "pair":
         a, b = ev["a"], ev["b"]
         f.add("same_prefix" if a["p"] == b["p"] else "diff_prefix")
+        if ev.get("pre", "none") != "none":
+            f.add("after_failed_operation")
         if max(len(a["d"]), len(b["d"])) > 12:
             f.add("long_mantissa")
         if abs(a["p"] - b["p"]) >= 12:
@@ -163,11 +207,14 @@ def run(tier, seed, replay_file=None):
         c = json.loads(Path(replay_file).read_text())["case"]
         pairs = [tuple(c["args"])] if c["kind"] == "pair" else []
         unary = [tuple(c["args"])] if c["kind"] == "unary" else []
+        conv = [tuple(c["args"])] if c["kind"] == "conv" else []
     else:
-        pairs, unary = gen(tier, seed)
+        pairs, unary, conv = gen(tier, seed)
     evs = pool_map(run_pair, list(enumerate(pairs)), chunksize=256)
     evs += pool_map(run_unary, [(len(pairs) + i, u) for i, u in enumerate(unary)], chunksize=64)
-    cases = [{"kind": "pair", "args": list(p)} for p in pairs] + [{"kind": "unary", "args": list(u)} for u in unary]
+    evs += pool_map(run_conv, [(len(pairs) + len(unary) + i, u) for i, u in enumerate(conv)], chunksize=256)
+    cases = ([{"kind": "pair", "args": list(p)} for p in pairs] + [{"kind": "unary", "args": list(u)} for u in unary]
+             + [{"kind": "conv", "args": list(u)} for u in conv])
     files = tlc.split_batches([[e] for e in evs], WORK / "c14", f"tr-{tier}", NPROC)
     out = tlc.validate_batches("trace/Trace_Prefixed.tla", "trace/Trace_Prefixed.cfg", files, jobs=NPROC, tag="c14val")
     verdicts = {}
@@ -179,8 +226,9 @@ def run(tier, seed, replay_file=None):
         raise tlc.TlcError(f"C14: {len(evs)} cases, {len(verdicts)} verdicts")
     o.traces = o.evaluations = len(evs)
     o.distinct_nontrivial = len({json.dumps(c) for c in cases if any(ch in "123456789" for ch in "".join(str(x) for x in c["args"][::2]))})
-    o.cover = {"pair": len(pairs), "unary": len(unary), "prefix_pairs": len({(p[1], p[3]) for p in pairs})}
-    o.required_cover = ["pair", "unary"]
+    o.cover = {"pair": len(pairs), "unary": len(unary), "conv": len(conv), "prefix_pairs": len({(p[1], p[3]) for p in pairs}),
+               "after_failed_operation": sum(1 for p in pairs if p[4] != "none")}
+    o.required_cover = ["pair", "unary", "conv", "after_failed_operation"]
     o.exhaustive = False
     o.extra["prefix_pairs_exhaustive"] = o.cover["prefix_pairs"] == 441
     rnd = random.Random(seed)
